@@ -427,7 +427,7 @@ class C05(vlib.Spec):
             "trace_commit_under_fence", "txn_shape"]]
     go_driver = "c05"
     lean_driver = "C05"
-    counts = {"quick": 1200, "thorough": 12000}
+    counts = {"quick": 1200, "thorough": 30000}
     trusted_base = [
         "Lean 4.33.0 kernel",
         "op-level atomicity: each modelled op is one Go call running under tsTable.RWMutex / inside the single introducer "
